@@ -132,6 +132,11 @@ func main() {
 			overlay[filepath.Join(dir, names[i])] = dst
 		}
 	}
+	// marker compiled into the runtime package: lets a check tell "the build is not
+	// instrumented" from "the instrumented tree has no map iteration left"
+	marker := filepath.Join(out, "zz_instrumented.go")
+	os.WriteFile(marker, []byte(fmt.Sprintf("package verifrt\n\nfunc init() {\n\tInstrumented = true\n\tMapRangeSites = %d\n}\n", stats["map-range"]+stats["maps-keys"])), 0o644)
+	overlay[filepath.Join(repo, "internal", "verifmc", "verifrt", "zz_instrumented.go")] = marker
 	b, _ := json.MarshalIndent(map[string]any{"Replace": overlay}, "", " ")
 	if err := os.WriteFile(filepath.Join(out, "overlay.json"), b, 0o644); err != nil {
 		fail("%v", err)
